@@ -160,17 +160,29 @@ def run(facts, rep, tier):
 
     # the result object handed to a helper by reference: the helper may assign any field (the must-assigned analysis stops being exact)
     escapes = [n for n in f.nodes() if n.k == 'call' and n.callee_in_root and n.ck != 'op' and any(a is not None and guards.strip_casts(a).k == 'ref' and guards.strip_casts(a).decl == R for a in n.ns('args'))]
+    # ... or captured by reference in a local closure that is called (`auto fallback = [&result, …] { … return result; }`)
+    def _closure_of_call(n):
+        if not (n.k == 'call' and n.ck == 'op' and n.op == '()' and n.callee_in_root): return None
+        for g in facts.resolve(n):
+            if g.d.get('lambda') and g.file.endswith('LocaleInfo.cpp') and any(x.k == 'ref' and x.decl == R for x in g.nodes()): return g
+        return None
+    closure_calls = [n for n in f.nodes() if _closure_of_call(n) is not None]
+    escapes += closure_calls
+
     def fallback_by_ref(call):
         """helper(result, …) that turns the object it receives by reference into the documented fallback unconditionally: every pointer
         field and `error` assigned a literal, one literal language appended, the literals being table entries.
         Returns (helper, resets_first) or None"""
         for g in facts.resolve(call):
             if not g.file.endswith('LocaleInfo.cpp') or g.cfg is None: continue
-            ai = next((i for i, a in enumerate(call.ns('args')) if a is not None and guards.strip_casts(a).k == 'ref' and guards.strip_casts(a).decl == R), None)
-            if ai is None or ai >= len(g.d['params']): continue
-            prm = g.d['params'][ai]
-            if not prm.get('isref') or prm['ctype'].startswith('const') or 'LocaleInfo::Info' not in prm['ctype']: continue
-            R2 = prm['decl']
+            if g.d.get('lambda') and _closure_of_call(call) is g:
+                R2 = R          # the closure works on the captured result object itself
+            else:
+                ai = next((i for i, a in enumerate(call.ns('args')) if a is not None and guards.strip_casts(a).k == 'ref' and guards.strip_casts(a).decl == R), None)
+                if ai is None or ai >= len(g.d['params']): continue
+                prm = g.d['params'][ai]
+                if not prm.get('isref') or prm['ctype'].startswith('const') or 'LocaleInfo::Info' not in prm['ctype']: continue
+                R2 = prm['decl']
             on_param = lambda m: m is not None and m.k == 'member' and m.n('base') is not None and guards.strip_casts(m.n('base')).k == 'ref' and guards.strip_casts(m.n('base')).decl == R2
             asg = {}
             for n in g.nodes():
@@ -231,7 +243,15 @@ def run(facts, rep, tier):
         for e in cfg.blocks[pos[0]].elems[:pos[1]]:
             if e.node is not None: cur |= gen_of(e.node) - {'@reset', '@fallback'}
         return cur
-    foreign_returns = [n for n in f.nodes() if n.k == 'return' and n.n('sub') is not None and not any(x.k == 'ref' and x.decl == R for x in n.n('sub').walk())]
+    def _via_closure(ret):
+        # `return fallback();` where the by-reference fallback closure returns the result object it filled in
+        for x in ret.n('sub').walk():
+            if x.k == 'call' and x.id in BYREF:
+                g = BYREF[x.id][1]
+                rs = [y for y in g.nodes() if y.k == 'return' and y.n('sub') is not None]
+                if g.d.get('lambda') and rs and all(any(z.k == 'ref' and z.decl == R for z in y.n('sub').walk()) for y in rs): return True
+        return False
+    foreign_returns = [n for n in f.nodes() if n.k == 'return' and n.n('sub') is not None and not any(x.k == 'ref' and x.decl == R for x in n.n('sub').walk()) and not _via_closure(n)]
 
     def fallback_helper(ret):
         """`return helper(...)` where helper builds the documented fallback unconditionally: a fresh Info, every pointer field and
@@ -287,19 +307,25 @@ def run(facts, rep, tier):
                 rep.violation('LO.2', f'result.{fl} is read before it is assigned', n.shortloc(),
                               f'`{(par or n).text()[:60]}` reads {fl}, which has no default initialiser and is not assigned on every path to this point: the value is indeterminate (whatever the caller\'s storage held), so the test decides nothing',
                               key=f'LO.2|uninit-read|{fl}', fn=f.name)
-    rets = [n for n in f.nodes() if n.k == 'return' and n.n('sub') is not None and any(x.k == 'ref' and x.decl == R for x in n.n('sub').walk())]
+    rets = [n for n in f.nodes() if n.k == 'return' and n.n('sub') is not None and (any(x.k == 'ref' and x.decl == R for x in n.n('sub').walk()) or _via_closure(n))]
     if exact: rep.floor('return statements', len(rets) + n_helper_fallbacks, 2)
     nfall = 0
     for r in rets:
         asg = assigned_at(r)
         known = guards.known_at(f, r)
         # fallback = dominated by a reset of the whole object
-        via = [v_ for v_ in BYREF.values() if cfg.dominates(v_[0], r)]
+        inside = {x.id for x in r.n('sub').walk()}
+        via = [v_ for v_ in BYREF.values() if v_[0].id in inside] or [v_ for v_ in BYREF.values() if cfg.dominates(v_[0], r)]
         if via:
             c_, g_, helper_resets = via[-1]
             nfall += 1
             own_resets = [n for n in f.nodes() if '@reset' in gen_of(n) and n.id not in BYREF and cfg.dominates(n, c_)]
             dirty = [ap for ap in appends if cfg.reaches(ap, c_) and not any(cfg.reaches(ap, x) and cfg.reaches(x, c_) and cfg.dominates(x, c_) for x in own_resets)]
+            # a guard that says the list is (still) empty at this exit: nothing was left behind on the paths that get here
+            def _says_empty(a, pol):
+                a = guards.strip_casts(a)
+                return pol and a is not None and a.k == 'call' and a.callee_base() == 'empty' and a.n('object') is not None and res_field(guards.strip_casts(a.n('object'))) == 'languages'
+            if dirty and any(_says_empty(a, pol) for a, pol in guards.known_at(f, r)): dirty = []
             clean = helper_resets or not dirty
             rep.check(clean, 'LO.2', f'fallback return through {g_.name.split("::")[-1]}(result, …): the helper assigns languageCode, country, countryCode and error from table literals, on an object that holds nothing from the failed lookup', r.shortloc(),
                       f'{g_.name.split("::")[-1]}() appends the fallback language to whatever the failed lookup left behind: neither it nor get() resets the result after the append at {dirty[0].shortloc() if dirty else "?"} (a known language with an unknown country returns that language\'s names *and* "English" under the code "en")',
